@@ -6,6 +6,7 @@ import (
 	"fmt"
 	"math/rand"
 	"os"
+	"sort"
 
 	"github.com/yaricom/goNEAT/v4/neat"
 	"github.com/yaricom/goNEAT/v4/neat/genetics"
@@ -30,6 +31,10 @@ type quotaSpEvent struct {
 	Kept   int  `json:"kept"`
 	Tn     int  `json:"tn"`
 	Listed bool `json:"listed"`
+	// dense ranks (1 = best) of the members' adjusted fitness as the library left it: the worst rank among the organisms
+	// kept as parents and the best rank among those eliminated (0: none eliminated)
+	Kr int `json:"kr"`
+	Er int `json:"er"`
 }
 type quotaEvent struct {
 	K       string         `json:"k"`
@@ -125,8 +130,34 @@ func recQuota(args []string) int {
 					total += share
 					n := len(members[sp])
 					ev.N += n
+					keptSet := map[*genetics.Organism]bool{}
+					for _, o := range sp.Organisms {
+						keptSet[o] = true
+					}
+					vals := make([]float64, 0, n)
+					for _, o := range members[sp] {
+						vals = append(vals, o.Fitness)
+					}
+					sort.Sort(sort.Reverse(sort.Float64Slice(vals)))
+					rank := map[float64]int{}
+					for _, v := range vals {
+						if _, ok := rank[v]; !ok {
+							rank[v] = len(rank) + 1
+						}
+					}
+					kr, er := 0, 0
+					for _, o := range members[sp] {
+						rk := rank[o.Fitness]
+						if keptSet[o] {
+							if rk > kr {
+								kr = rk
+							}
+						} else if er == 0 || rk < er {
+							er = rk
+						}
+					}
 					ev.Species = append(ev.Species, quotaSpEvent{Id: sp.Id, Q: sp.ExpectedOffspring, Share: toFix(share), Cum: toFix(cum),
-						Size: n, Kept: len(sp.Organisms), Tn: toFix(opts.SurvivalThresh * float64(n)), Listed: listed[sp]})
+						Size: n, Kept: len(sp.Organisms), Tn: toFix(opts.SurvivalThresh * float64(n)), Listed: listed[sp], Kr: kr, Er: er})
 					if (sp.Age-sp.AgeOfLastImprovement+1)-opts.DropOffAge >= 0 {
 						penalised++
 					}
@@ -179,7 +210,7 @@ func recQuota(args []string) int {
 			},
 		}
 		done, rerr := 0, error(nil)
-		if p := vhu.Guard(func() { done, rerr = runEpochs(&sc, r, opts, pop, ob) }); p != "" {
+		if p := vhu.Guard(func() { done, rerr = runEpochs(&sc, r, &opts, pop, ob) }); p != "" {
 			aborted = append(aborted, fmt.Sprintf("%s: panic after %d epochs: %s", sc.Name, done, p))
 		} else if rerr != nil {
 			aborted = append(aborted, fmt.Sprintf("%s: stopped after %d epochs: %v", sc.Name, done, rerr))
